@@ -66,6 +66,9 @@ def obligations(tier):
     obls = [CH(n, H, f, t, functions=fn, stubs=[FMT], bounds=b) for n, f, fn, b in simple]
     obls += [
         CH("dictionary_keys_and_emptiness", H, "dict_prop", t, mode="E1s", functions=FP[7:10], bounds="12 keys x 2 versions x empty/non-empty x Dictionary/Hashes/Extensions"),
+        CH("float_special_values", H, "float_values", t, mode="E1s", functions=FP[1:2] + ["stix2.v21.sdo.Location", "stix2.v21.observables.WindowsPESection"],
+           bounds="21 values (infinities, NaN and their text spellings, overflowing text and int, extreme doubles, -0.0, non-numbers) x (bare / bounded FloatProperty, the 4 float-typed properties of real classes): "
+                  "refused, or accepted as a finite double that serializes to a JSON number and reads back equal"),
         CH("binary_property", H, "binary_prop", t, mode="E1s", functions=FP[10:11], bounds="12 base64 / non-base64 literals"),
         CH("reference_property", H, "ref_prop", t, mode="E1s", functions=FP[12:13],            bounds="15 type names (two registered for 2.1 only, three registered as extension / marking kinds only) x 7 white/black-list configurations x allow_custom x both spec versions"),
         CH("reference_text_malformed", H, "ref_text", t, mode="E1s", functions=FP[12:13] + ["stix2.properties._validate_id", "stix2.utils.get_type_from_id"],
